@@ -83,6 +83,9 @@ class Ctx:
 
     # ---------------------------------------------------------------- bookkeeping
     def cleanup(self):
+        if os.environ.get("VERIF_KEEP"):
+            print("kept: " + self.tmp)
+            return
         shutil.rmtree(self.tmp, ignore_errors=True)
 
     def subdir(self, name):
@@ -221,7 +224,8 @@ class Ctx:
                               "depth": r.depth, "wall_s": round(r.wall, 2),
                               "mode": "simulate" if simulate else "bfs"})
         if r.status in ("error", "timeout"):
-            raise Infra("TLC %s on %s/%s (exit %s):\n%s" % (r.status, module, cfg, r.exit, r.out[-3000:]))
+            errs = "\n".join(l[:400] for l in r.out.split("\n") if l.startswith(("Error:", "TLC threw", "java.lang", "Caused by")))[:1500]
+            raise Infra("TLC %s on %s/%s (exit %s):\n%s\n...\n%s" % (r.status, module, cfg, r.exit, errs, r.out[-3000:]))
         if not keep_out:
             shutil.rmtree(os.path.join(work, "meta"), ignore_errors=True)
         return r
